@@ -615,6 +615,18 @@ func SnapshotOracles(w *world.LW, n *world.Node, props ...string) []common.Viola
 			out = append(out, m.checkC02(0, v)...)
 		case "C07":
 			out = append(out, m.checkC07State(0, v)...)
+		case "C01":
+			// state form of C01: every confirmed untrusted spice transfer is covered in its own history (+ checkpoint)
+			conf := v.confirmed()
+			for h := range conf {
+				x := v.all()[h]
+				if !x.Transaction.IsSpiceTransfer() || m.isGenesis(x) || m.trusted(v, x.SignerPublicAddress) {
+					continue
+				}
+				if ok, in, need := m.covered(x, v.stored); !ok {
+					out = append(out, viol("C01", "C01.covered", "C01.uncovered/concurrent-proposals", fmt.Sprintf("%s is confirmed although its issuer %s received %s and needs %s in the history it builds on", m.W.Ref.Name(h), world.AddrName(x.Transaction.IssuerAddress), in, need), nil))
+				}
+			}
 		}
 	}
 	return out
